@@ -459,6 +459,9 @@ class Interp:
             return d
         if isinstance(e, ast.JoinedStr):
             return "<formatted string>"
+        if isinstance(e, ast.UnaryOp) and isinstance(e.op, ast.USub):
+            v = self.eval(e.operand, env, f)
+            return -v if isinstance(v, (int, float)) and not isinstance(v, bool) else TOP
         if isinstance(e, ast.UnaryOp) and isinstance(e.op, ast.Not):
             t = self.truth(self.eval(e.operand, env, f))
             return TOP if t is TOP else (not t)
@@ -502,8 +505,9 @@ class Interp:
             if isinstance(base, (tuple, list)) and isinstance(e.slice, ast.Slice):
                 lo = None if e.slice.lower is None else self.eval(e.slice.lower, env, f)
                 hi = None if e.slice.upper is None else self.eval(e.slice.upper, env, f)
-                if e.slice.step is None and (lo is None or isinstance(lo, int)) and (hi is None or isinstance(hi, int)):
-                    return base[lo:hi]
+                st_ = None if e.slice.step is None else self.eval(e.slice.step, env, f)
+                if all(x is None or (isinstance(x, int) and not isinstance(x, bool)) for x in (lo, hi, st_)) and st_ != 0:
+                    return base[lo:hi:st_]
                 return TOP
             if isinstance(base, dict) and isinstance(key, tuple) and all(isinstance(x, (str, int, type(None))) for x in key):
                 if key in base:
